@@ -42,8 +42,29 @@ def gen_case(rng):
     spec = dict(items)
     after = copy.deepcopy(spec)
     log = fstree.mutate_tree(rng, after, n=1)
-    excl = rng.choice([None, None, ["*.txt"], ["lib"], ["x", "*.bin"]])
+    # (anchored patterns name a directory at the top of the dir: artifact only: a nested one of the same name stays in)
+    excl = rng.choice([None, None, ["*.txt"], ["lib"], ["x", "*.bin"], ["/lib"], ["/src", "/a"], ["/x", "/b"], ["/dist/", "/zz"],
+                      [".*"], ["."], [".*", "*.bin"]])        # (hidden-file patterns match '.', the directory itself: D10c)
     return {"tree": fstree.spec_json(spec), "after": fstree.spec_json(after), "log": log, "exclude": excl}
+
+
+def pinned_cases():
+    """anchored exclude patterns against same-named directories at depth 1, 2 and 3 of the dir: artifact"""
+    f = lambda b: ["f", b]
+    d = lambda **kw: ["d", kw]
+    tree = {"build": d(**{"out.o": f("o")}),
+            "src": d(build=d(**{"gen.c": f("g"), "deep": d(build=d(**{"x.c": f("x")}))}), **{"main.c": f("m")}),
+            "vendor": d(lib=d(build=d(**{"v.c": f("v")}))), "top.txt": f("t")}
+    out = []
+    for excl in (["/build"], ["/build/"], ["build"], ["/src/build"], ["/vendor/lib"], ["/b*"], ["/lib"], [".*"], ["."]):
+        for edit in ("src", "vendor"):
+            after = copy.deepcopy(tree)
+            if edit == "src":
+                after["src"][1]["build"][1]["gen.c"] = f("g!")
+            else:
+                after["vendor"][1]["lib"][1]["build"][1]["new.c"] = f("n")
+            out.append({"tree": tree, "after": after, "log": [["pinned", edit]], "exclude": excl})
+    return out
 
 
 def impl_dir(path, excl, lstrip=None):
@@ -65,7 +86,7 @@ def run(ctx):
     pending = not os.path.exists(core.COQ + "/Props/C20.v")
     if not pending:
         core.check_props(ctx, ["Props/C20.v"])
-    cases = [gen_case(ctx.rng) for _ in range(n)]
+    cases = pinned_cases() + [gen_case(ctx.rng) for _ in range(n)]
     reqs, impl, meta = [], [], []
     default_excl = list(in_toto.settings.ARTIFACT_EXCLUDE_PATTERNS)
     changed_expected = 0
